@@ -184,7 +184,7 @@ func (l *Log) addChainOrPreChain(ctx context.Context, reqBody io.ReadCloser, che
 		defangedTBS, err := x509.BuildPrecertTBS(chain[0].RawTBSCertificate, preIssuer)
 		if err != nil {
 			l.c.Log.ErrorContext(ctx, "failed to build TBSCertificate", "err", err, "body", body)
-			return nil, http.StatusInternalServerError, fmtErrorf("failed to build TBSCertificate: %w", err)
+			return nil, http.StatusBadRequest, fmtErrorf("failed to build TBSCertificate: %w", err)
 		}
 
 		e.IsPrecert = true
